@@ -228,18 +228,22 @@ def encode_peer(spec, s, stem):
     dt_txt = ("%.8f" % (1.0 / spec["rate"])).lstrip("0")
     files = []
     vals = {}
+    short = spec.get("peer_short") or {}
     for c in spec["order"]:
         v = s[c].astype(float) * 1e-3
+        if short.get("comp") == c:                 # PEER does not require equal lengths:
+            v = v[:max(2, len(v) - short["by"])]    # the reader keeps the common leading part
         toks = [_peer_num(x) for x in v]
         vals[c] = np.array([float(t) for t in toks])
         lines = ["PEER NGA STRONG MOTION DATABASE RECORD (simulated)",
                  f"Simulated-01, 1/17/1994, Station {stem}, {codes[c]}",
                  "VELOCITY TIME SERIES IN UNITS OF CM/S",
-                 f"NPTS=  {spec['n']:5d}, DT=   {dt_txt} SEC"]
+                 f"NPTS=  {len(toks):5d}, DT=   {dt_txt} SEC"]
         for i in range(0, len(toks), 5):
             lines.append("".join(toks[i:i + 5]))
         files.append((f"{stem}_{codes[c].lower()}.vt2", ("\n".join(lines) + "\n").encode()))
-    exp = {"ns": vals["N"], "ew": vals["E"], "vt": vals["Z"], "dt": float("0" + dt_txt)}
+    m = min(len(x) for x in vals.values())
+    exp = {"ns": vals["N"][:m], "ew": vals["E"][:m], "vt": vals["Z"][:m], "dt": float("0" + dt_txt)}
     exp["deg"] = float(int(codes["N"]) % 360) if codes["N"].isdigit() else 0.0
     return files, exp
 
